@@ -745,7 +745,9 @@ def judge_c17(case, log):
                     if t[7] & 32:
                         obs["nonblock_flag_seen"] += 1
                     else:
-                        V(vs, "C17", "pipe-not-nonblocking", "%s on fd %d: the parent's pipe end lacks O_NONBLOCK" % (t[0], t[3]))
+                        # how the library avoids blocking is its own business (O_NONBLOCK is one way):
+                        # recorded, not judged - waiting is judged above, where it would be observable
+                        obs["nonblock_flag_missing"] = obs.get("nonblock_flag_missing", 0) + 1
                 ret = op["ret"]
                 if not (ret > 0 or ret in (EPIPE, EAGAIN) or (ret == 0 and op.get("size", 1) == 0)):
                     V(vs, "C17", "nonblocking-unexpected-result:%d" % ret, "%s returned %d" % (name, ret))
@@ -772,7 +774,9 @@ def judge_c17(case, log):
             if name in ("RD", "WR"):
                 for t in ios:
                     if t[7] & 32:
-                        V(vs, "C17", "pipe-nonblocking-without-option", "%s on fd %d has O_NONBLOCK although the option is off" % (t[0], t[3]))
+                        # an implementation detail (a blocking call may be built from a nonblocking
+                        # descriptor and poll): recorded; what is judged is EWOULDBLOCK reaching the caller
+                        obs["nonblock_flag_without_option"] = obs.get("nonblock_flag_without_option", 0) + 1
                 if op["ret"] == EAGAIN:
                     V(vs, "C17", "wouldblock-in-blocking-mode", "%s returned EWOULDBLOCK without the nonblocking option" % name)
             if name == "RD" and op.get("st") in (1, 2):
